@@ -53,7 +53,15 @@ MANIFEST = dict(
          "whole columns that are untyped-null (dtype Null), typed-null (String / Int64 / Float64 / Boolean / Date / "
          "Object), null except one value, Object columns mixing str / int / float / bool / None, and zero-row frames "
          "with those dtypes, as data column (one, several, all), group_by key at every level, page_by key at every "
-         "level and subline_by key, on documents that continue over several pages.",
+         "level and subline_by key, on documents that continue over several pages. "
+         "Container spellings: the constructors keep the Python container they are handed for the Sequence-typed "
+         "arguments (a tuple page_by stays a tuple), so the well-formedness oracle, the byte-exact encoder "
+         "correspondences (single-section, multi-section, nested headers, figure) and the totality ties also run an "
+         "argument-spelling class on every run: documents of every generator class with each container-typed "
+         "constructor argument (column-name arguments of every body, texts, header lists, margin, col_rel_width, "
+         "figure lists) as list / tuple / bare str / numpy array where the constructors accept it, arguments and "
+         "sections mixing containers; the encoder models read the entries of the constructed state and are unaffected "
+         "by the spelling.",
     note="Totality is a theorem about the encoder MODEL (byte-exact against rtf_encode() on every generated document, "
          "exceptions included); of the real encoder it is observed on the configuration product (exceptions other than "
          "the documented ValueError are violations). Configurations the constructors accept outside the quantifier "
@@ -80,7 +88,11 @@ RULE = ("configurations from the product: strategy × header mode (default, expl
         "column untyped-null = dtype Null / typed-null String Int64 Float64 Boolean Date Object / null except one value / "
         "Object mixing str int float bool None / zero-row frame with those dtypes) × column role (data: one, several, "
         "all; group_by level 0-2; page_by level 0-2; subline_by), mostly 2+ pages; multi-section and figure "
-        "documents; non-trivial = ≥ 2 pages or ≥ 2 sections/figures; distinct by configuration tuple")
+        "documents; × container spelling of every container-typed constructor argument (group_by / page_by / subline_by "
+        "of every body as list / tuple / bare str, each argument and each section on its own; component texts str / "
+        "list / tuple; header list / tuple / single object, header texts list / tuple / frame / str; page margin list / "
+        "tuple; col_rel_width of body / headers / footnote / source list / tuple / numpy array; figure list and size "
+        "lists list / tuple / array) on the single-section, multi-section, nested-header and figure streams; non-trivial = ≥ 2 pages or ≥ 2 sections/figures; distinct by configuration tuple")
 
 # ----------------------------------------------------------------------------- real output → grammar tree
 
@@ -281,6 +293,15 @@ def _worker(args):
             spec, info = gen_headers_case(sub_rng(seed, "c01", "headers", k), k)
         else:
             spec, info = gen_case(sub_rng(seed, "c01", k), k)
+        if fixed is None and len(rest) > 1 and rest[1] == "args":
+            # the argument-spelling class: the same document of one of the classes above (single table, multi-section,
+            # figure; header variation; data shapes) with every container-typed constructor argument handed over in
+            # another container the constructors accept — column-name arguments of every body as tuple / bare str
+            # (each argument, each section on its own: list / tuple mixes), texts, header lists, margin, col_rel_width,
+            # figure lists (docgen `gen_spelling(args=True)`)
+            from .. import encodecorr
+
+            encodecorr.respell(sub_rng(seed, "c01", "argspelling", str(rest[0]), k), spec, info)
         st = docgen.encode(spec)
         out = dict(spec=spec, info=info, status=st[0])
         if st[0] == "ok":
@@ -432,6 +453,10 @@ def run(res, build):
     jobs = [(res.seed, k, None) for k in range(n)]
     jobs += [(res.seed, k, None, True) for k in range(n // 5)]      # the header-variation class (`gen_headers_case`)
     jobs += [(res.seed, k, None, "shapes") for k in range(n // 3)]  # the data-shape class (`harness/datashapes.py`)
+    # the argument-spelling class (`encodecorr.respell`) over the three classes above
+    jobs += [(res.seed, k, None, False, "args") for k in range(n // 4)]
+    jobs += [(res.seed, k, None, True, "args") for k in range(n // 10)]
+    jobs += [(res.seed, k, None, "shapes", "args") for k in range(n // 6)]
     cdir = common.CORPUS / "C01"
     if cdir.exists():
         for i, f in enumerate(sorted(cdir.glob("*.json"))):
@@ -464,17 +489,22 @@ def run(res, build):
                 nt += (str([r[1:3] for r in info.get("header_rows", [])]),)
             if info.get("data_shapes"):
                 nt += (str(sorted(set((r, s) for r, _, s in info["data_shapes"]))),)
+            if o["spec"].get("spelling"):
+                nt += (str(sorted(o["spec"]["spelling"].items())),)
         res.case(dict(spec=o["spec"], info=info), nt)
         res.count("kind:" + str(info.get("strategy")))
         res.count("header:" + str(info.get("header_mode")))
         res.count("status:" + o["status"])
         encodecorr.count_header_rows(res, info, prefix="hdrcells:wf")
         datashapes.count(res, info, prefix="datashape:wf")
+        encodecorr.count_spelling(res, info, f"spell:wf:{o['spec'].get('kind', 'table')}:{o['status']}")
         if info.get("data_shapes"):
             res.count(f"datashape:wf:pages={min(np_, 3)}{'+' if np_ > 3 else ''}")
         judge(res, o, wf.get(i), tree.get(i))
     # the replay names the smallest failing input found (stable: ties keep the order of discovery)
-    res.failures.sort(key=lambda cw: len(json.dumps(cw[0], default=str)))
+    # — among the inputs accepted at construction first: a refusal by the constructors of a document the generators
+    # mean to be accepted is reported too, but the statement speaks about accepted configurations
+    res.failures.sort(key=lambda cw: (str(cw[1]).startswith("construct-error"), len(json.dumps(cw[0], default=str))))
     return common.finish(
         res, build, RULE, known_lines=known_lines, trusted=
         ["Lean 4.33 kernel; axioms ⊆ {propext, Classical.choice, Quot.sound} (audited per theorem on every run)",
